@@ -66,14 +66,15 @@ def run_group(ck, pid, init, want, cover):
     for i in range(0, len(keys), CH):
         chunk = keys[i:i + CH]
         progs = [byprog[k][""]["prog"] for k in chunk]
-        data = IR.build_doc(progs, forms)
+        style = lambda j, i=i: (i // CH + j) % IR.NUMSTYLES  # noqa: E731 - rotate the spelling of numbers over the programs
+        data = IR.build_doc(progs, forms, numstyle=style)
         results = IR.run_doc(data, len(progs))
         for k, prog, (glyphs, shapes, snaps, err) in zip(chunk, progs, results):
             recs = byprog[k]
             ideal = recs[""]
             coded = recs.get(alltag, ideal)
             body = IR.prog_bytes(prog)
-            rp = {"program": body, "property": pid}
+            rp = {"program": IR.prog_bytes(prog, style(chunk.index(k))), "property": pid}
             ck.replayed += 1
             ops = IR.op_names(prog)
             for o in ops:
